@@ -389,6 +389,36 @@ let verdict case impl =
               let decoded i = match List.nth tr (int_of_nat i) with
                 | TO_exec (_, _, _, _, OB_rows (c, _, _, _)) -> c | _ -> [] in
               (match bookkeeping (List.length tr) with
+               | [] when mixed ->
+                 (* mixed cluster: per-node bookkeeping of the nodes WITHOUT the extension (the nodes announce
+                    different columns): rows that came without metadata from such a node, decoded with other
+                    columns than that node most recently announced (at preparation / in a re-preparation) *)
+                 let prep_cols nd i = (init_from (fun _ -> ext_of (int_of_nat nd)) i).m_cols in
+                 let an_nodes = (fun nd i -> (prep_cols nd i, false)) in
+                 (match plain_node_check st (nat_of_int ns) an_nodes O tr with
+                  | [] -> "ok"
+                  | hits ->
+                    let idx l = String.concat "," (List.map (fun (i, _) -> string_of_int (int_of_nat i)) l) in
+                    let in_class (i, from_reprep) =
+                      (match List.nth tr (int_of_nat i) with
+                       | TO_exec (_, e, a, _, OB_rows (c, _, _, _)) ->
+                         if from_reprep then known_classb st gfinal ncalls i c
+                         else known_class_prepb (List.init nnodes (fun nd -> prep_cols (nat_of_int nd) a.xa_stmt)) e a.xa_use_cached c
+                       | _ -> false) in
+                    (* two open findings: F17 (the node's re-preparation was ignored) and F25 (the node's answer at
+                       preparation was discarded).  Narrow rule: a tag only if EVERY hit of the history is in the
+                       class of ONE of them; a history with hits of both shapes, or a hit outside its class, is a
+                       plain viol *)
+                    let all_reprep = List.for_all (fun (_, r) -> r) hits and all_prep = List.for_all (fun (_, r) -> not r) hits in
+                    if List.for_all in_class hits && all_reprep then
+                      Printf.sprintf "viol class=stale-cached-metadata-without-ext shape=re-preparation-ignored ops=%s (mixed cluster: node without the extension, cached metadata requested, its re-preparation announced other columns)" (idx hits)
+                    else if List.for_all in_class hits && all_prep then
+                      Printf.sprintf "viol class=foreign-cached-metadata-without-ext shape=answer-at-preparation-discarded ops=%s (nodes announce different columns: node without the extension, cached metadata requested, its own PREPARED at preparation was discarded by Session::prepare)" (idx hits)
+                    else if List.for_all in_class hits then
+                      Printf.sprintf "viol rows from nodes without the extension decoded with other columns than those nodes announced, in BOTH known shapes (F17 and F25) within one history ops=%s" (idx hits)
+                    else
+                      Printf.sprintf "viol rows from a node without the extension decoded with columns other than that node announced ops=%s"
+                        (idx (List.filter (fun h -> not (in_class h)) hits)))
                | [] -> "ok"
                | hits ->
                  let idx l = String.concat "," (List.map (fun (i, _) -> string_of_int (int_of_nat i)) l) in
